@@ -46,8 +46,9 @@ def mc_step(res, label, module, cfg_text, workers=8, timeout=900, env=None, cove
     return r
 
 
-def _run_replayer(bindir, args, files, timeout):
+def _run_replayer(bindir, args, files, timeout, run_env=None):
     env = dict(os.environ, VERIF_CLASSES=families.classes_file())
+    env.update(run_env or {})
     cmd = [os.path.join(bindir, "replayer")] + args + files
     try:
         r = subprocess.run(cmd, capture_output=True, text=True, errors="replace", timeout=timeout, env=env)
@@ -57,7 +58,7 @@ def _run_replayer(bindir, args, files, timeout):
 
 
 def replay_step(res, family, kinds=None, modes="base", profile="release", backend=None, threads=None,
-                variant=None, timeout=3000, files=None, label=None, big=False, baseline=False, promote=False):
+                variant=None, timeout=3000, files=None, label=None, big=False, baseline=False, promote=False, run_env=None):
     """Replay a cached family through the real parser.  variant = dict(extra_rustflags, env, subdir, features)"""
     if files is None:
         path, meta = families.family_file(family)
@@ -88,9 +89,9 @@ def replay_step(res, family, kinds=None, modes="base", profile="release", backen
     res.hash_files.append(hf)
     args += ["--hashes", hf]
     t0 = time.time()
-    r = _run_replayer(bindir, args, files, timeout)
+    r = _run_replayer(bindir, args, files, timeout, run_env)
     lab = label or ("%s/%s/%s%s%s" % (family, modes, profile, "/backend%s" % backend if backend is not None else "", "/" + variant["subdir"] if variant.get("subdir") else ""))
-    ctx = {"family": family, "kinds": kinds, "modes": modes, "profile": profile, "backend": backend, "variant": variant}
+    ctx = {"family": family, "kinds": kinds, "modes": modes, "profile": profile, "backend": backend, "variant": variant, "run_env": run_env}
     if r.returncode in (70, 71):
         what = "crashed" if r.returncode == 70 else "hung"
         cands = [l.split(" ", 1)[1] for l in r.stderr.splitlines() if l.startswith("CRASH-CANDIDATE ") or l.startswith("HANG-CANDIDATE ")]
@@ -99,7 +100,7 @@ def replay_step(res, family, kinds=None, modes="base", profile="release", backen
             tmp = os.path.join(WORK, "run", "cand.vec")
             os.makedirs(os.path.dirname(tmp), exist_ok=True)
             open(tmp, "w").write(c.strip().strip('"') + "\n")
-            r2 = _run_replayer(bindir, args[:2] + ["--threads", "1"] + args[4:], [tmp], 120)
+            r2 = _run_replayer(bindir, args[:2] + ["--threads", "1"] + args[4:], [tmp], 120, run_env)
             if r2.returncode in (70, 71):
                 confirmed.append(c.strip().strip('"'))
         if not confirmed:
@@ -285,7 +286,7 @@ def validate_traces(res, label, module, cfg_text, trace_files, timeout=1200, ext
     for i, tf in enumerate(trace_files):
         out = open(os.path.join(wd, "t%d.out" % i), "w")
         e = dict(os.environ, TRACE=tf,
-                 JAVA_TOOL_OPTIONS="-Xss64m -XX:ParallelGCThreads=2 -Xmx3g -Dtlc2.tool.queue.IStateQueue=StateDeque")
+                 JAVA_TOOL_OPTIONS="-Xss256m -XX:ParallelGCThreads=2 -Xmx3g -Dtlc2.tool.queue.IStateQueue=StateDeque")
         if extra_env:
             e.update(extra_env)
         cmd = ["timeout", str(timeout), "tlc", "-workers", "1", "-metadir", os.path.join(wd, "md%d" % i), "-cleanup",
